@@ -57,22 +57,22 @@ import (
 
 type c08Owner struct {
 	Idx   int  `json:"idx"` // index into objs; -1 = an owner that does not exist
-	Ctrl  bool `json:"ctrl"`
-	Block bool `json:"block"`
+	Ctrl  bool `json:"ctrl,omitempty"`
+	Block bool `json:"block,omitempty"`
 }
 
 type c08Obj struct {
 	Kind   string     `json:"kind"` // claim xr xrd crd rev lock usage res
 	Name   string     `json:"name"` // claims: "ns/name"
-	Fins   []string   `json:"fins"`
-	Del    bool       `json:"del"`
-	Owners []c08Owner `json:"owners"`
-	Paused bool       `json:"paused"`
-	Ref    string     `json:"ref"`
-	Of     string     `json:"of"`
-	Flag   bool       `json:"flag"`
-	Inuse  bool       `json:"inuse"`
-	Pkgs   []string   `json:"pkgs"`
+	Fins   []string   `json:"fins,omitempty"`
+	Del    bool       `json:"del,omitempty"`
+	Owners []c08Owner `json:"owners,omitempty"`
+	Paused bool       `json:"paused,omitempty"`
+	Ref    string     `json:"ref,omitempty"`
+	Of     string     `json:"of,omitempty"`
+	Flag   bool       `json:"flag,omitempty"`
+	Inuse  bool       `json:"inuse,omitempty"`
+	Pkgs   []string   `json:"pkgs,omitempty"`
 }
 
 type c08Step struct {
@@ -92,9 +92,9 @@ type c08Scn struct {
 }
 
 type c08StepObs struct {
-	Call string   `json:"call"`
-	Resp string   `json:"resp"`
-	Res  string   `json:"res"`
+	Call string   `json:"call,omitempty"`
+	Resp string   `json:"resp,omitempty"`
+	Res  string   `json:"res,omitempty"`
 	Chg  []string `json:"chg"`
 }
 
@@ -320,13 +320,20 @@ type c08View struct {
 func (v c08View) key() string { return v.Kind + "/" + v.Name }
 
 func (v c08View) repr() string {
-	b := func(x bool) string {
-		if x {
-			return "1"
-		}
-		return "0"
+	r := "fins=" + strings.Join(v.Fins, ",")
+	if v.Del {
+		r = "del " + r
 	}
-	return fmt.Sprintf("del=%s fins=%s pkgs=%s inuse=%s conds=%s", b(v.Del), strings.Join(v.Fins, ","), strings.Join(v.Pkgs, ","), b(v.Inuse), strings.Join(v.Conds, ","))
+	if len(v.Pkgs) > 0 {
+		r += " pkgs=" + strings.Join(v.Pkgs, ",")
+	}
+	if v.Inuse {
+		r += " inuse"
+	}
+	if len(v.Conds) > 0 {
+		r += " conds=" + strings.Join(v.Conds, ",")
+	}
+	return r
 }
 
 func (v c08View) hasFin(f string) bool {
